@@ -242,24 +242,24 @@ fn mixer(hid: u8, a: [u64; 5]) -> u64 {
     clobber_scratch();
     v
 }
-fn h_mix0(a: u64, b: u64, c: u64, d: u64, e: u64) -> u64 {
+extern "C" fn h_mix0_body(a: u64, b: u64, c: u64, d: u64, e: u64) -> u64 {
     mixer(H_MIX0, [a, b, c, d, e])
 }
-fn h_mix1(a: u64, b: u64, c: u64, d: u64, e: u64) -> u64 {
+extern "C" fn h_mix1_body(a: u64, b: u64, c: u64, d: u64, e: u64) -> u64 {
     mixer(H_MIX1, [a, b, c, d, e])
 }
-fn h_mix2(a: u64, b: u64, c: u64, d: u64, e: u64) -> u64 {
+extern "C" fn h_mix2_body(a: u64, b: u64, c: u64, d: u64, e: u64) -> u64 {
     mixer(H_MIX2, [a, b, c, d, e])
 }
-fn h_mix3(a: u64, b: u64, c: u64, d: u64, e: u64) -> u64 {
+extern "C" fn h_mix3_body(a: u64, b: u64, c: u64, d: u64, e: u64) -> u64 {
     mixer(H_MIX3, [a, b, c, d, e])
 }
-fn h_probe_r1(a: u64, tag: u64, _c: u64, _d: u64, _e: u64) -> u64 {
+extern "C" fn h_probe_r1_body(a: u64, tag: u64, _c: u64, _d: u64, _e: u64) -> u64 {
     tls(|t| t.probe_r1 = Some((a, tag)));
     clobber_scratch();
     0
 }
-fn h_probe_slot(r1: u64, doff: u64, eoff: u64, tag: u64, _e: u64) -> u64 {
+extern "C" fn h_probe_slot_body(r1: u64, doff: u64, eoff: u64, tag: u64, _e: u64) -> u64 {
     // native reads of the two slots of the buffer the program was given
     let (d, e) = unsafe {
         (
@@ -271,24 +271,58 @@ fn h_probe_slot(r1: u64, doff: u64, eoff: u64, tag: u64, _e: u64) -> u64 {
     clobber_scratch();
     0
 }
-fn h_probe_stack(p: u64, tag: u64, _c: u64, _d: u64, _e: u64) -> u64 {
+extern "C" fn h_probe_stack_body(p: u64, tag: u64, _c: u64, _d: u64, _e: u64) -> u64 {
     let v = unsafe { (p as *const u64).read_unaligned() };
     tls(|t| t.probe_stack = Some((v, tag)));
     clobber_scratch();
     0
 }
 
+// The x86-64 JIT calls helpers with a stack pointer that is 8 bytes off the 16-byte alignment of
+// the C ABI (an observation outside the claimed properties, DESIGN.md 12.3). The harness helpers
+// must not depend on that either way: each is entered through a few instructions that align the
+// stack before the Rust body runs.
+macro_rules! aligned_entry {
+    ($tramp:ident, $body:ident) => {
+        std::arch::global_asm!(
+            concat!(".globl ", stringify!($tramp)),
+            concat!(stringify!($tramp), ":"),
+            "push rbp",
+            "mov rbp, rsp",
+            "and rsp, -16",
+            "call {body}",
+            "mov rsp, rbp",
+            "pop rbp",
+            "ret",
+            body = sym $body,
+        );
+        extern "C" {
+            fn $tramp(a: u64, b: u64, c: u64, d: u64, e: u64) -> u64;
+        }
+    };
+}
+aligned_entry!(histsim_h_mix0, h_mix0_body);
+aligned_entry!(histsim_h_mix1, h_mix1_body);
+aligned_entry!(histsim_h_mix2, h_mix2_body);
+aligned_entry!(histsim_h_mix3, h_mix3_body);
+aligned_entry!(histsim_h_probe_r1, h_probe_r1_body);
+aligned_entry!(histsim_h_probe_slot, h_probe_slot_body);
+aligned_entry!(histsim_h_probe_stack, h_probe_stack_body);
+
 pub fn helper_fn(hid: u8) -> rbpf::Helper {
-    match hid {
-        H_MIX0 => h_mix0,
-        H_MIX1 => h_mix1,
-        H_MIX2 => h_mix2,
-        H_MIX3 => h_mix3,
-        H_PROBE_R1 => h_probe_r1,
-        H_PROBE_SLOT => h_probe_slot,
-        H_PROBE_STACK => h_probe_stack,
+    // rbpf's own JIT calls `fn(u64, u64, u64, u64, u64) -> u64` with the C calling convention; the
+    // same identification is made here for the entry stubs.
+    let f: unsafe extern "C" fn(u64, u64, u64, u64, u64) -> u64 = match hid {
+        H_MIX0 => histsim_h_mix0,
+        H_MIX1 => histsim_h_mix1,
+        H_MIX2 => histsim_h_mix2,
+        H_MIX3 => histsim_h_mix3,
+        H_PROBE_R1 => histsim_h_probe_r1,
+        H_PROBE_SLOT => histsim_h_probe_slot,
+        H_PROBE_STACK => histsim_h_probe_stack,
         _ => panic!("no helper {}", hid),
-    }
+    };
+    unsafe { std::mem::transmute::<unsafe extern "C" fn(u64, u64, u64, u64, u64) -> u64, rbpf::Helper>(f) }
 }
 
 // ---- stack-usage calculators ------------------------------------------------------------------
